@@ -40,3 +40,10 @@ def describe(v, tier):
                      "sqrt exact (r >= 0, r*r = t); log/exp uninterpreted, applied to canonicalised arguments"]
     v.outside = ["vector length > 6", "magnitude of rounding errors, overflow"]
     v.stubs = ["numpy -> symx.symnp", "numba.njit -> identity (with the `is True` lowering)", "math -> symx.symmath"]
+
+
+def conformance(v, tier, seed):
+    """every one of the 47 bodies, evaluated concretely through the twin inside a supervised fit/predict on the
+    repository's own data, against the real njit code"""
+    from . import conform
+    return conform.gate(v, [("sup", name) for name in sorted(SPEC.CLOSED)])
